@@ -473,15 +473,17 @@ def prove_registry(src_root, ex: Explorer):
         it = mk(src_root, ctx)
         kind = ['PeerConnection', 'ServerConnection'][ctx.choose(2, 'kind')]
         c = Obj(cls(it, CONN, kind))
-        calls, emitted = [], []
-        net = new(it, NET, 'Network', _event_bus=Stub('bus', emit=Recorder('emit', fn=lambda it2, a, k: emitted.append(a[0]), is_async=True)))
-        it.hooks[f'{NET}:Network._on_peer_connection_state_changed'] = lambda it2, f, a, k: A.SimpleAwaitable(it2.aio, 'peer', lambda it3: calls.append('peer'))
-        it.hooks[f'{NET}:Network._on_server_connection_state_changed'] = lambda it2, f, a, k: A.SimpleAwaitable(it2.aio, 'server', lambda it3: calls.append('server'))
+        calls, emitted, order = [], [], []
+        net = new(it, NET, 'Network', _event_bus=Stub('bus', emit=Recorder('emit', fn=lambda it2, a, k: (emitted.append(a[0]), order.append('event')), is_async=True)))
+        it.hooks[f'{NET}:Network._on_peer_connection_state_changed'] = lambda it2, f, a, k: A.SimpleAwaitable(it2.aio, 'peer', lambda it3: (calls.append('peer'), order.append('registry')))
+        it.hooks[f'{NET}:Network._on_server_connection_state_changed'] = lambda it2, f, a, k: A.SimpleAwaitable(it2.aio, 'server', lambda it3: (calls.append('server'), order.append('registry')))
         st = enum(it, CONN, 'ConnectionState', 'CLOSED')
         run(it, it.getattr(net, 'on_state_changed'), st, c, close_reason=enum(it, CONN, 'CloseReason', 'EOF'))
         ok = calls == ['peer' if kind == 'PeerConnection' else 'server'] and len(emitted) == 1 and emitted[0].cls.name == 'ConnectionStateChangedEvent' \
             and emitted[0].attrs['connection'] is c and emitted[0].attrs['state'] is st
-        ctx.prove(f'C10.on_state_changed.reports[{kind}]', ok, 'registry handler first, then exactly one ConnectionStateChangedEvent')
+        ctx.prove(f'C10.on_state_changed.reports[{kind}]', ok and order == ['registry', 'event'],
+                  f'registry handler first, then exactly one ConnectionStateChangedEvent (order {order}): a listener that suspends - or the cancellation of the '
+                  'reporting task while listeners run - must not leave a CLOSED connection registered')
     ex.run(dispatch, 'on_state_changed')
 
 
@@ -495,8 +497,18 @@ def prove_connect_sites(src_root, ex: Explorer):
     ex.obligations[:] = [ob for ob in ex.obligations if ob.name.startswith('C10.')]
 
 
+def prove_reader_relies(src_root, ex: Explorer):
+    """A connection whose peer closes (or breaks) it ends CLOSED because its reader notices: the reader loop goes on reading after a frame
+    it cannot decode and ends only when the connection is closing (C02.reader_loop.*), discharged here as well."""
+    from contracts import C02
+    C02.prove_reader_loop(src_root, ex)
+    for ob in ex.obligations:
+        if ob.name.startswith('C02.'):
+            ob.name = 'C10.reader-notices-close.' + ob.name[4:]
+
+
 def items(src_root, tier):
-    return [('connect-sites', None), ('set_state', None), ('connect', None), ('disconnect', None), ('after', None), ('accept', None), ('registry', None), ('accepted', None), ('accepted-failures', None), ('shutdown', None)]
+    return [('reader-relies', None), ('connect-sites', None), ('set_state', None), ('connect', None), ('disconnect', None), ('after', None), ('accept', None), ('registry', None), ('accepted', None), ('accepted-failures', None), ('shutdown', None)]
 
 
 def run_item(src_root, item, tier):
@@ -506,7 +518,7 @@ def run_item(src_root, item, tier):
     try:
         {'set_state': prove_set_state, 'connect': prove_connect, 'disconnect': prove_disconnect, 'after': prove_after_closed,
          'accept': prove_accept, 'registry': prove_registry, 'accepted': prove_accepted_registered, 'accepted-failures': prove_accepted_failures, 'shutdown': prove_shutdown_order,
-         'connect-sites': prove_connect_sites}[kind](src_root, ex)
+         'connect-sites': prove_connect_sites, 'reader-relies': prove_reader_relies}[kind](src_root, ex)
     except Unsupported as e:
         res.errors.append(f'{kind}: unsupported: {e}')
     collect(res, ex)
